@@ -39,6 +39,13 @@ fn check_case(case: &Value, stats: &mut Stats) -> CheckResult {
     if let Some(src) = case["src"].as_str() {
         stats.label(&format!("src:{}", src));
     }
+    // a near-identical board is validated first (both entry points), so that anything validation remembers is about it
+    if let Some(t) = case.get("twin").and_then(|t| t.as_u64()).and_then(|sel| crate::gen::positions::twin_of(&p, sel as u32)) {
+        let traw = raw_from_ref(&t);
+        let _ = Board::try_from(&traw).map(|b| b.zobrist_hash());
+        let _ = Board::try_from(traw).map(|b| b.zobrist_hash());
+        stats.label("twin_validated_first");
+    }
     let by_ref: Result<Board, ValidateError> = Board::try_from(&raw);
     match Board::try_from(raw) {
         Ok(x) => {
